@@ -15,6 +15,10 @@ def setups(tier):
         ('chain+open_u2+u3', 'u1_chain', 'u3_independent_job',
          [('new_update', 'u1', 't2', 1, 0), ('add_jobs', 'u1', 2, [bf.J(1, abs_parents=[1], abs_group=0)])]),
     ]
+    # updates 2 and 3 are both open; update 3 (a job without parents) has its bunch inserted but is never committed, while
+    # update 2 (a child of job 1) is completed and committed: committing the LOWER update must not touch the higher one
+    s.append(('chain+open_u3+u2', 'u1_chain', 'u2_rest_after_reserve',
+              [('new_update', 'u1', 't2', 1, 0), ('new_update', 'u1', 't3', 1, 0), ('add_jobs', 'u1', 3, [bf.J(1, abs_group=0)])]))
     # update 1 (one job) has already run to completion, so the batch is complete; update 2 adds only a job group
     s.append(('done1+empty_groups', 'u1_single', 'u2_empty_groups_only',
               [('sched', 0, 'i1'), ('complete', 1, 'A001xx', 'i1', 'Success', 10, 20)]))
